@@ -143,11 +143,39 @@ void dump(const char *name, const V &v) {
 // ---- range sources of every iterator category (the category selects different code before C++17): the same values are presented through
 // std::vector iterators, raw pointers, std::list, std::forward_list, a std::deque positioned across one of its blocks, reverse iterators over a
 // reversed copy (random access but not contiguous) and move iterators. `op` is a functor with a template operator()(first, last).
+// contiguous buffer of T (std::vector<bool> is not a container of bool)
+template <class T>
+struct Buf {
+  T *p;
+  size_t n, cap;
+  Buf() : p(nullptr), n(0), cap(0) {}
+  Buf(const Buf &o) : p(o.cap ? new T[o.cap] : nullptr), n(o.n), cap(o.cap) { for (size_t i = 0; i < n; ++i) p[i] = o.p[i]; }
+  ~Buf() { delete[] p; }
+  void push_back(const T &v) {
+    if (n == cap) { size_t nc = cap ? 2 * cap : 4; T *q = new T[nc]; for (size_t i = 0; i < n; ++i) q[i] = p[i]; delete[] p; p = q; cap = nc; }
+    p[n++] = v;
+  }
+  size_t size() const { return n; }
+  bool empty() const { return n == 0; }
+  const T &operator[](size_t i) const { return p[i]; }
+  const T *begin() const { return p; }
+  const T *end() const { return p + n; }
+  T *begin() { return p; }
+  T *end() { return p + n; }
+ private:
+  Buf &operator=(const Buf &);
+};
+template <class T> struct VectorIterators {
+  template <class Op> static void go(const Buf<T> &src, Op op) { std::vector<T> v(src.begin(), src.end()); op(v.begin(), v.end()); }
+};
+template <> struct VectorIterators<bool> {
+  template <class Op> static void go(const Buf<bool> &src, Op op) { op(src.begin(), src.end()); }
+};
 template <class T, class Op>
-void feed(unsigned kind, const std::vector<T> &src, Op op) {
+void feed(unsigned kind, const Buf<T> &src, Op op) {
   switch (kind % 7) {
-    case 0: op(src.begin(), src.end()); break;
-    case 1: { const T *b = src.empty() ? static_cast<const T *>(nullptr) : &src[0]; op(b, b + src.size()); break; }
+    case 0: VectorIterators<T>::go(src, op); break;
+    case 1: op(src.begin(), src.end()); break;
     case 2: { std::list<T> l(src.begin(), src.end()); op(l.begin(), l.end()); break; }
     case 3: { std::forward_list<T> l(src.begin(), src.end()); op(l.begin(), l.end()); break; }
     case 4: {
@@ -158,10 +186,36 @@ void feed(unsigned kind, const std::vector<T> &src, Op op) {
       op(d.begin() + static_cast<std::ptrdiff_t>(per_block - 1), d.end());
       break;
     }
-    case 5: { std::vector<T> r(src.rbegin(), src.rend()); op(r.rbegin(), r.rend()); break; }
-    default: { std::vector<T> c(src); op(std::make_move_iterator(c.begin()), std::make_move_iterator(c.end())); break; }
+    case 5: {
+      Buf<T> r;
+      for (size_t i = src.size(); i-- > 0;) r.push_back(src[i]);
+      const Buf<T> &cr = r;
+      op(std::reverse_iterator<const T *>(cr.end()), std::reverse_iterator<const T *>(cr.begin()));
+      break;
+    }
+    default: { Buf<T> c(src); op(std::make_move_iterator(c.begin()), std::make_move_iterator(c.end())); break; }
   }
 }
+// eighth source kind: values of ANOTHER integral type of the same size (a range of unsigned char feeding a vector of bool or of signed char ...):
+// each element must be converted, a byte copy is not a conversion
+template <class T> struct OtherIntegral { typedef T type; };
+template <> struct OtherIntegral<bool> { typedef unsigned char type; };
+template <> struct OtherIntegral<signed char> { typedef unsigned char type; };
+template <> struct OtherIntegral<unsigned char> { typedef signed char type; };
+template <> struct OtherIntegral<char> { typedef unsigned char type; };
+template <> struct OtherIntegral<short> { typedef unsigned short type; };
+template <> struct OtherIntegral<int> { typedef unsigned type; };
+template <class T, class Op>
+void feed2(unsigned kind, const Buf<T> &src, const std::vector<int> &raw, Op op) {
+  typedef typename OtherIntegral<T>::type O;
+  if (kind % 8 != 7 || std::is_same<O, T>::value) { feed(kind % 8 == 7 ? 0u : kind % 8, src, op); return; }
+  std::vector<O> other;
+  for (size_t i = 0; i < raw.size(); ++i) other.push_back(static_cast<O>(raw[i]));
+  const O *b = other.empty() ? static_cast<const O *>(nullptr) : &other[0];
+  if (raw.size() % 2) op(b, b + other.size());
+  else op(other.begin(), other.end());
+}
+
 template <class V>
 struct InsertRangeOp {
   V *v; unsigned pos; long *at;
@@ -221,7 +275,7 @@ void vector_script(const char *tname, Rng &rng, int nops) {
       case 4: if (room) { T x(next_value++); typename V::iterator it = v.insert(v.begin() + pos, x); put(" at=%ld", static_cast<long>(it - v.begin())); } break;
       case 5: if (room) { typename V::iterator it = v.insert(v.begin() + pos, T(next_value++)); put(" at=%ld", static_cast<long>(it - v.begin())); } break;
       case 6: { unsigned n = rng.below(4); if (n <= room) { T x(next_value++); typename V::iterator it = v.insert(v.begin() + pos, static_cast<SizeT>(n), x); put(" at=%ld", static_cast<long>(it - v.begin())); } break; }
-      case 7: { unsigned n = rng.below(5); unsigned kind = rng.below(7); if (n <= room) { std::vector<T> src; for (unsigned k = 0; k < n; ++k) src.push_back(T(next_value++)); long at = -1; InsertRangeOp<V> o = {&v, pos, &at}; feed(kind, src, o); put(" at=%ld", at); } break; }
+      case 7: { unsigned n = rng.below(5); unsigned kind = rng.below(8); if (n <= room) { Buf<T> src; std::vector<int> raw; for (unsigned k = 0; k < n; ++k) { raw.push_back(next_value); src.push_back(T(next_value++)); } long at = -1; InsertRangeOp<V> o = {&v, pos, &at}; feed2(kind, src, raw, o); put(" at=%ld", at); } break; }
       case 8: if (room >= 2) { T a(next_value++), b(next_value++); typename V::iterator it = v.insert(v.begin() + pos, {a, b}); put(" at=%ld", static_cast<long>(it - v.begin())); } break;
       case 9: if (sz) v.pop_back(); break;
       case 10: if (sz) { unsigned p = rng.below(sz); typename V::iterator it = v.erase(v.begin() + p); put(" at=%ld", static_cast<long>(it - v.begin())); } break;
@@ -229,7 +283,7 @@ void vector_script(const char *tname, Rng &rng, int nops) {
       case 12: { unsigned n = rng.below(MAXLEN + 1); v.resize(static_cast<SizeT>(n)); break; }
       case 13: { unsigned n = rng.below(MAXLEN + 1); T x(next_value++); v.resize(static_cast<SizeT>(n), x); break; }
       case 14: { unsigned n = rng.below(MAXLEN + 1); T x(next_value++); v.assign(static_cast<SizeT>(n), x); break; }
-      case 15: { unsigned n = rng.below(MAXLEN + 1); unsigned kind = rng.below(7); std::vector<T> src; for (unsigned k = 0; k < n; ++k) src.push_back(T(next_value++)); if (rng.below(3) == 0) { CtorRangeOp<V> o = {&v}; feed(kind, src, o); } else { AssignRangeOp<V> o = {&v}; feed(kind, src, o); } break; }
+      case 15: { unsigned n = rng.below(MAXLEN + 1); unsigned kind = rng.below(8); Buf<T> src; std::vector<int> raw; for (unsigned k = 0; k < n; ++k) { raw.push_back(next_value); src.push_back(T(next_value++)); } if (rng.below(3) == 0) { CtorRangeOp<V> o = {&v}; feed2(kind, src, raw, o); } else { AssignRangeOp<V> o = {&v}; feed2(kind, src, raw, o); } break; }
       case 16: v.clear(); break;
       case 17: v.reserve(static_cast<SizeT>(rng.below(MAXLEN + 1))); v.shrink_to_fit(); break;
       case 18: v.swap(w); break;
@@ -352,7 +406,7 @@ void flatset_script(const char *tname, Rng &rng, int nops, unsigned maxlen) {
       case 2: if (sz < maxlen) { std::pair<typename FS::iterator, bool> r = s.emplace(key); put(" ins=%ld at=%ld", r.second, static_cast<long>(r.first - s.begin())); } break;
       case 3: if (sz < maxlen) { T x(key); typename FS::iterator it = s.insert(s.begin() + rng.below(sz + 1), x); put(" at=%ld", static_cast<long>(it - s.begin())); } break;
       case 4: if (sz < maxlen) { typename FS::iterator it = s.emplace_hint(s.begin() + rng.below(sz + 1), key); put(" at=%ld", static_cast<long>(it - s.begin())); } break;
-      case 5: { unsigned n = rng.below(5); unsigned kind = rng.below(7); if (sz + n <= maxlen) { std::vector<T> src; for (unsigned k = 0; k < n; ++k) src.push_back(T(static_cast<int>(rng.below(20)))); SetInsertRangeOp<FS> o = {&s}; feed(kind, src, o); } break; }
+      case 5: { unsigned n = rng.below(5); unsigned kind = rng.below(7); if (sz + n <= maxlen) { Buf<T> src; for (unsigned k = 0; k < n; ++k) src.push_back(T(static_cast<int>(rng.below(20)))); SetInsertRangeOp<FS> o = {&s}; feed(kind, src, o); } break; }
       case 6: { T x(key); put(" erased=%ld", static_cast<long>(s.erase(x))); break; }
       case 7: if (sz) { typename FS::iterator it = s.erase(s.begin() + rng.below(sz)); put(" at=%ld", static_cast<long>(it - s.begin())); } break;
       case 8: { unsigned f = rng.below(sz + 1), l = f + rng.below(sz - f + 1); typename FS::iterator it = s.erase(s.begin() + f, s.begin() + l); put(" at=%ld", static_cast<long>(it - s.begin())); break; }
@@ -425,7 +479,7 @@ void extras_script(const char *tname, Rng &rng, int nops) {
     unsigned sz = static_cast<unsigned>(v.size());
     put("op %ld:", op);
     switch (op) {
-      case 0: { unsigned n = rng.below(5); unsigned kind = rng.below(7); if (sz + n <= MAXV) { std::vector<T> src; for (unsigned k = 0; k < n; ++k) src.push_back(T(next_value++)); AppendRangeOp<V> o = {&v}; feed(kind, src, o); } break; }
+      case 0: { unsigned n = rng.below(5); unsigned kind = rng.below(8); if (sz + n <= MAXV) { Buf<T> src; std::vector<int> raw; for (unsigned k = 0; k < n; ++k) { raw.push_back(next_value); src.push_back(T(next_value++)); } AppendRangeOp<V> o = {&v}; feed2(kind, src, raw, o); } break; }
       case 1: { unsigned n = rng.below(4); if (sz + n <= MAXV) v.append(static_cast<SizeT>(n)); break; }
       case 2: { unsigned n = rng.below(4); if (sz + n <= MAXV) { T x(next_value++); v.append(static_cast<SizeT>(n), x); } break; }
       case 3: if (sz + 2 <= MAXV) { T a(next_value++), b(next_value++); v.append({a, b}); } break;
@@ -547,12 +601,15 @@ int main(int argc, char **argv) {
       snprintf(head, sizeof head, "=== script %ld\n", h);
       g_out += head;
       if (sec == 0) {
-        switch (h % 19) {
+        switch (h % 22) {
           case 8: vector_script<amc::SmallVector<B<3>, 3>, 20>("B3,3", rng, nops); break;
           case 9: vector_script<amc::SmallVector<B<5>, 2>, 20>("B5,2", rng, nops); break;
           case 10: vector_script<amc::SmallVector<B<7>, 2, std::allocator<B<7> >, unsigned char>, 20>("B7,2,u8", rng, nops); break;
           case 11: vector_script<amc::SmallVector<B<6>, 5>, 20>("B6,5", rng, nops); break;
           case 12: vector_script<amc::SmallVector<B<3>, 11, amc::allocator<B<3> >, unsigned short>, 30>("B3,11,u16", rng, nops); break;
+          case 19: vector_script<amc::vector<bool>, 40>("bool", rng, nops); break;
+          case 20: vector_script<amc::SmallVector<bool, 12, amc::allocator<bool>, unsigned char>, 30>("bool,12,u8", rng, nops); break;
+          case 21: vector_script<amc::FixedCapacityVector<unsigned char, 16>, 16>("uchar,fixed16", rng, nops); break;
           case 16: vector_script<amc::vector<Rec>, 30>("Rec", rng, nops); break;
           case 17: vector_script<amc::SmallVector<Rec, 3>, 24>("Rec,3", rng, nops); break;
           case 18: vector_script<amc::FixedCapacityVector<Rec, 10>, 10>("Rec,fixed10", rng, nops); break;
